@@ -14,6 +14,8 @@ CFGS = {
                                DmlTables='{"t1"}', Ops='{"create", "insert"}', Script="<- ScriptGrowThenDdl", ScriptRows="<- RowsGrowThenDdl"), None),
               # refused statements (CREATE TABLE with a column the catalog cannot hold, INSERT with a bad row) between the
               # acknowledged ones: whatever a refused statement leaves behind in memory must not shift what recovery rebuilds
+              # rows of exactly 400 bytes (value 8), the empty string (7) and NULL (9): the largest log records there are, and the smallest
+              ("c02-big", dict(CrashAt=IDLE, MaxStmts=4, MaxRows=2, MaxFlush=1, MaxCrash=1, Tables='{"t1"}', Vals="{7, 8, 9}", Wheres="{0, 8}"), None),
               ("c02-bad", dict(CrashAt=IDLE, BadMode='"type-size"', MaxStmts=5, MaxRows=3, MaxFlush=0, MaxCrash=1, Tables='{"t1", "t2"}',
                                DmlTables='{"t1"}', Vals="{1}", Ops='{"create", "insert"}'), None)],
     "thorough": [("c02-a", dict(EmitMod=40, CrashAt=IDLE, MaxStmts=5, MaxRows=2, MaxFlush=2, MaxCrash=2, Tables='{"t1"}'), 60000),
